@@ -30,11 +30,14 @@ def _load_inventory():
     global _INVENTORY_LOCALS, _INVENTORY_SHAPES
     _INVENTORY_LOCALS = d.get("locals", {})
     _INVENTORY_SHAPES = d.get("bindings", {})
+    global _INVENTORY_NESTED
+    _INVENTORY_NESTED = d.get("nested_comprehensions", {})
     return d["functions"]
 
 
 _INVENTORY_LOCALS: dict = {}
 _INVENTORY_SHAPES: dict = {}
+_INVENTORY_NESTED: dict = {}
 
 
 class AnalysisError(Exception):
@@ -224,7 +227,7 @@ class Project:
                             if names:
                                 self.inlined.setdefault(rel, {}).setdefault("aliases", {})[q] = names
         for rel, src, tree in parsed:
-            tree = canonicalise(tree)
+            tree = canonicalise(tree, set(_INVENTORY_NESTED.get(rel, [])) if inventory is not None and rel in _INVENTORY_NESTED else None)
             modname = rel[:-3].replace("/", ".")
             if modname.endswith(".__init__"):
                 modname = modname[: -len(".__init__")]
@@ -711,6 +714,20 @@ class _Canon(ast.NodeTransformer):
                 for h in sub.handlers:
                     h.body = self._fold_body(self._join_branches(self._hoist_else(h.body)), cnt)
 
+    def visit_Call(self, node):
+        """`x.endswith(tuple(S))` / `x.startswith(tuple(S))`  ->  `any(x.endswith(e) for e in S)` (the same question, asked element by
+        element: no order of S is fixed)"""
+        self.generic_visit(node)
+        f = node.func
+        if (isinstance(f, ast.Attribute) and f.attr in ("endswith", "startswith") and len(node.args) == 1 and not node.keywords and isinstance(node.args[0], ast.Call)
+                and isinstance(node.args[0].func, ast.Name) and node.args[0].func.id == "tuple" and len(node.args[0].args) == 1 and not node.args[0].keywords
+                and isinstance(f.value, (ast.Name, ast.Attribute))):
+            e = ast.Name(id="_each", ctx=ast.Load())
+            inner = ast.Call(func=ast.Attribute(value=f.value, attr=f.attr, ctx=ast.Load()), args=[e], keywords=[])
+            gen = ast.GeneratorExp(elt=inner, generators=[ast.comprehension(target=ast.Name(id="_each", ctx=ast.Store()), iter=node.args[0].args[0], ifs=[], is_async=0)])
+            return ast.copy_location(ast.Call(func=ast.Name(id="any", ctx=ast.Load()), args=[gen], keywords=[]), node)
+        return node
+
     def visit_FunctionDef(self, node):
         self.generic_visit(node)
         self._canon_fn(node)
@@ -719,7 +736,67 @@ class _Canon(ast.NodeTransformer):
     visit_AsyncFunctionDef = visit_FunctionDef
 
 
-def canonicalise(tree):
+def _unnest_comprehensions(tree, keep: set[str]):
+    """`return [[E for c in F(r)] for r in G]` / `x = [[...] ...]` in a function whose reference version had no nested list comprehension
+    (`keep` lists the functions that had one)  ->  the two loops with appends. Tree walkers are read as loops; a grid built by a nested
+    comprehension is the same traversal."""
+    counter = [0]
+
+    def loops_for(comp, sink):
+        """statements that append every element of the list comprehension `comp` to the list named `sink`"""
+        body = [ast.Expr(value=ast.Call(func=ast.Attribute(value=ast.Name(id=sink, ctx=ast.Load()), attr="append", ctx=ast.Load()), args=[comp.elt], keywords=[]))]
+        if isinstance(comp.elt, ast.ListComp):
+            counter[0] += 1
+            inner = f"__row{counter[0]}"
+            body = [ast.Assign(targets=[ast.Name(id=inner, ctx=ast.Store())], value=ast.List(elts=[], ctx=ast.Load()))] + loops_for(comp.elt, inner) + \
+                [ast.Expr(value=ast.Call(func=ast.Attribute(value=ast.Name(id=sink, ctx=ast.Load()), attr="append", ctx=ast.Load()), args=[ast.Name(id=inner, ctx=ast.Load())], keywords=[]))]
+        for g in reversed(comp.generators):
+            if g.ifs:
+                test = g.ifs[0] if len(g.ifs) == 1 else ast.BoolOp(op=ast.And(), values=list(g.ifs))
+                body = [ast.If(test=test, body=body, orelse=[])]
+            it, tgt, pre = g.iter, g.target, []
+            if isinstance(it, ast.GeneratorExp) and len(it.generators) == 1 and not it.generators[0].ifs and isinstance(tgt, ast.Name):
+                # for t in (E for v in IT): ...  ->  for v in IT: t = E; ...
+                pre = [ast.Assign(targets=[ast.Name(id=tgt.id, ctx=ast.Store())], value=it.elt)]
+                tgt, it = it.generators[0].target, it.generators[0].iter
+            body = [ast.For(target=tgt, iter=it, body=pre + body, orelse=[])]
+        return body
+
+    def fix(fn):
+        if fn.name in keep:
+            return
+        for blk_owner in ast.walk(fn):
+            for fld in ("body", "orelse", "finalbody"):
+                b = getattr(blk_owner, fld, None)
+                if not (isinstance(b, list) and b and isinstance(b[0], ast.stmt)):
+                    continue
+                out = []
+                for st in b:
+                    v = st.value if isinstance(st, (ast.Return, ast.Assign)) else None
+                    if isinstance(v, ast.ListComp) and isinstance(v.elt, ast.ListComp) and not any(g.is_async for c in (v, v.elt) for g in c.generators) \
+                            and (isinstance(st, ast.Return) or (len(st.targets) == 1 and isinstance(st.targets[0], ast.Name))):
+                        counter[0] += 1
+                        sink = st.targets[0].id if isinstance(st, ast.Assign) else f"__grid{counter[0]}"
+                        new = [ast.Assign(targets=[ast.Name(id=sink, ctx=ast.Store())], value=ast.List(elts=[], ctx=ast.Load()))] + loops_for(v, sink)
+                        if isinstance(st, ast.Return):
+                            new.append(ast.Return(value=ast.Name(id=sink, ctx=ast.Load())))
+                        for n_ in new:
+                            ast.copy_location(n_, st)
+                            ast.fix_missing_locations(n_)
+                        out.extend(new)
+                    else:
+                        out.append(st)
+                setattr(blk_owner, fld, out)
+
+    for n in ast.walk(tree):
+        if isinstance(n, (ast.FunctionDef, ast.AsyncFunctionDef)):
+            fix(n)
+    return tree
+
+
+def canonicalise(tree, keep_nested: set[str] | None = None):
+    if keep_nested is not None:
+        tree = _unnest_comprehensions(tree, keep_nested)
     for _ in range(3):  # hoisting and flipping enable each other; three rounds reach the fixpoint on nested ifs
         tree = _Canon().visit(tree)
     return ast.fix_missing_locations(tree)
